@@ -709,6 +709,14 @@ Ltac cost_log Hr :=
   end; lia.
 Ltac cost_lin Hr := intros _; unfold reg_size; rewrite ?Hr; cbn [ticks set_ticks set_cap clear set_size set_qp set_heap set_map empty_store shrink_to_fit]; lia.
 
+Lemma clone_cbs_nofuse (s : store) n : fuse s = None -> clone_cbs s n = Ok s.
+Proof.
+  intros Hf. induction n as [|n IH]; cbn [clone_cbs]; [done|].
+  unfold cb. rewrite Hf. cbn [mbind res_bind rbind]. rewrite Hf. cbn [mbind res_bind rbind]. exact IH.
+Qed.
+Lemma reg_inv_fuse ord k (s : store) : reg_inv ord (k, s) -> fuse s = None.
+Proof. destruct k; intros (_ & Hf & _); exact Hf. Qed.
+
 Lemma step1_main ord (m : machine) (o : op) :
   inv_m ord m -> total_ticks m = 0 -> adm keq alloc_limit m o -> (ord = true -> no_forget o) ->
   post ord (costed o) (cost_bound m o) (stp1 None m o).
@@ -716,7 +724,7 @@ Proof.
   intros Hm Hz (Hcl & Hlim & Hnf) Hfg.
   destruct o as [k r|k r c|k r l|k r l h|r i p|r i p|r i p|r i p|r i g|r i|r sd|r sd u|r sd
                 |r sd f|r i|r i|r i u|r|r|r f|r a script e|r a script e|r a script e
-                |r a script e|r a script e|r|r sd|r|r l h|dst src|r|src dst|ra rb|src k dst
+                |r a script e|r a script e|r|r sd|r|r l h|dst src|r|src dst|src dst|ra rb|src k dst
                 |k r l|r n|r n|r|r|n o];
     try destruct sd;
     cbn [Machine.step1 closures_ok limits_ok no_fuse no_forget cost_bound costed] in *.
@@ -877,6 +885,13 @@ Proof.
     apply post_set; [done|done|by apply reg_inv_mono|done|].
     intros _. unfold reg_size. rewrite Hr. lia.
   - (* OClone *) destruct (getreg m src) as [[k s]|] eqn:Hr; [|by apply post_same].
+    rewrite (clone_cbs_nofuse s _ (reg_inv_fuse _ _ _ (Hm src _ Hr))).
+    apply post_set; [done|done|apply reg_inv_set_ticks; by apply (Hm src)|done|cost_lin Hr].
+  - (* OCloneFrom *) destruct (decide (src = dst)); [by apply post_same|].
+    destruct (getreg m src) as [[k s]|] eqn:Hr; [|by apply post_same].
+    destruct (getreg m dst) as [[k' s']|] eqn:Hd; [|by apply post_same].
+    destruct (decide (k = k')); [|by apply post_same].
+    rewrite (clone_cbs_nofuse s _ (reg_inv_fuse _ _ _ (Hm src _ Hr))).
     apply post_set; [done|done|apply reg_inv_set_ticks; by apply (Hm src)|done|cost_lin Hr].
   - (* OEq *) destruct (getreg m ra) as [[k s]|]; [|by apply post_same].
     destruct (getreg m rb) as [[k' s']|]; [|by apply post_same].
